@@ -104,11 +104,19 @@ def selection(kind, spec, args, g=0):
         root = ClassRoot(spec["classes"], spec["C"], spec.get("bulk", "list"))
         base = root
         inv = None
+    import copy as _copy
+    args_before = _copy.deepcopy(args)
     try:
         with _Term(1.5):
             w = _build(kind, base, args)
     except TimeoutError:
         raise Violation(f"construction-does-not-terminate:{kind}", f"args {args} layout {spec['classes']}")
+    # the selection is a function of the constructor arguments: the objects handed in must come back unchanged
+    for k_, v_ in args.items():
+        b_ = args_before[k_]
+        same = (torch.equal(v_, b_) if torch.is_tensor(v_) else np.array_equal(v_, b_) if isinstance(v_, np.ndarray) else v_ == b_)
+        if not same:
+            raise Violation(f"constructor-mutates-its-argument:{kind}:{k_}", f"{k_}: {b_!r} became {v_!r}"[:300])
     if len(w) != len(w.indices):
         raise Violation(f"len!=indices:{kind}", "")
     sel = [w.getitem_x(i) for i in range(len(w))]
@@ -152,6 +160,15 @@ def _is_boundary(v, n):
 
 # ------------------------------------------------------------------ per-wrapper checks
 def check_class_filter(spec):
+    if spec.get("wide"):
+        # many classes with sparse ids and a long filter list (e.g. a small split of a 1000-class dataset filtered to 50 classes)
+        g = np.random.default_rng(spec["wide"])
+        Cw = int(g.integers(100, 3000))
+        pool = [int(v) for v in g.choice(Cw, size=12, replace=False)]
+        n_ = max(1, len(spec["classes"]))
+        cl_ = [pool[int(g.integers(0, len(pool)))] for _ in range(n_)]
+        Vw = sorted({int(v) for v in g.choice(Cw, size=int(g.integers(15, 60)), replace=False)} | set(pool[:int(g.integers(0, 6))]))
+        spec = dict(spec, classes=cl_, C=Cw, V=Vw, how=spec["how"].replace("_class_names", "_classes").replace("class_names", "classes"), under=None)
     n, cl = len(spec["classes"]), spec["classes"]
     V = spec["V"]
     how = spec["how"]
@@ -196,7 +213,8 @@ def check_subset_wrapper(spec):
     form = spec["form"]
     if form == "indices":
         idx = [i for i in spec["indices"] if -n <= i < n]
-        sel = run("SubsetWrapper", spec, dict(indices=idx))
+        given = {"list": list(idx), "numpy": np.array(idx, dtype=np.int64), "tensor": torch.tensor(idx, dtype=torch.long)}[spec.get("as", "list")]
+        sel = run("SubsetWrapper", spec, dict(indices=given))
         exp = [i % n for i in idx]
         if sel != exp:
             raise Violation("subset-wrapper-indices", f"{sel} vs {exp}")
@@ -410,11 +428,13 @@ def _two_percents():
 
 S_CLASS_FILTER = with_layout(st.fixed_dictionaries({
     "V": st.lists(st.integers(0, 7), max_size=4, unique=True),
-    "how": st.sampled_from(["valid_classes", "invalid_classes", "valid_class_names", "invalid_class_names"])}))
+    "how": st.sampled_from(["valid_classes", "invalid_classes", "valid_class_names", "invalid_class_names"]),
+    "wide": st.sampled_from([None, None, 1, 2, 3, 4, 5, 6, 7, 8])}))
 S_PERCENT = with_layout(st.tuples(_two_percents(), st.booleans(), st.booleans()).map(
     lambda t: dict(t[0], ceil_from=t[1], ceil_to=t[2])))
 S_SUBSET = with_layout(st.one_of(
-    st.fixed_dictionaries({"form": st.just("indices"), "indices": st.lists(st.integers(-48, 47), max_size=10)}),
+    st.fixed_dictionaries({"form": st.just("indices"), "indices": st.lists(st.integers(-48, 47), max_size=10),
+                           "as": st.sampled_from(["list", "numpy", "tensor"])}),
     st.fixed_dictionaries({"form": st.just("index"), "a": st.one_of(st.none(), st.integers(0, 10)),
                            "b": st.one_of(st.none(), st.integers(0, 60)), "k": st.integers(0, 50)}).filter(
         lambda d: (d["a"] is not None or d["b"] is not None) and (d["a"] is None or d["b"] is None or d["a"] <= d["b"])),
